@@ -520,6 +520,7 @@ func TestCheck(t *testing.T) {
 	for i := 0; i < nRace; i++ {
 		ps = append(ps, plan{"racing"})
 	}
+	rec.Planned(len(ps))
 	for idx, pl := range ps {
 		if !mon.Mine(idx) {
 			continue
